@@ -136,8 +136,33 @@ class Ctx:
             raise Abort()
 
     def tmpdir(self) -> str:
+        """Scratch directory of this run.  Its PATH is a function of the trace alone (paths end up in strings the
+        library hashes, e.g. in sets of file names): a replay must see the same path as the run that failed."""
         if self._tmp is None:
-            self._tmp = tempfile.mkdtemp(prefix="run-", dir=scratch_root())
+            key = hashlib.sha1(json.dumps(self.trace, sort_keys=True, default=str).encode()).hexdigest()[:20]
+            base = "/dev/shm" if os.path.isdir("/dev/shm") and os.access("/dev/shm", os.W_OK) else tempfile.gettempdir()
+            root = os.path.join(base, "verif-sim")
+            os.makedirs(root, exist_ok=True)
+            path = os.path.join(root, key)
+            t0 = time.time()
+            while True:
+                try:
+                    os.mkdir(path)
+                    break
+                except FileExistsError:
+                    # another process is executing the very same trace (parallel self-tests): wait for it; a stale
+                    # directory (killed process) is taken over after a while
+                    if time.time() - t0 > 30:
+                        try:
+                            if time.time() - os.path.getmtime(path) > 120:
+                                shutil.rmtree(path, ignore_errors=True)
+                                continue
+                        except OSError:
+                            continue
+                        if time.time() - t0 > 300:
+                            raise HarnessError("scratch directory %s stays busy" % path)
+                    time.sleep(0.02)
+            self._tmp = path
         return self._tmp
 
     def cleanup(self):
